@@ -46,6 +46,14 @@ CHECKS = {
    technique="metamorphic property-based testing in the deterministic daemon simulation: each generated scenario is run woken only as the daemon asks and again with additional idle wake-ups every 10-100 ms; any action that is later or missing in the silent run was due without a timer; plus a spin oracle on the wake-up requests of every iteration",
    text="Exploration: 6e3 (quick) / 1.5e5 (thorough) scenario pairs over 8-45 s of virtual time mixing all kinds of timed work (probe steps, tiebreak retry, announcement repeat, retransmissions, refreshes, expiries, verify deadlines, hostname timeouts, interface check with interval default/1 s/very large/0), and 2e3 / 4e4 scenarios observed silently for 3 h of virtual time for the no-spin bound. Model-free: the oracle is the relation between the two runs.",
    note="Trusted: simulation hooks. A late action is reported only if it is late again on a second pair of fresh daemons (HashMap order differs per thread)."),
+ "C03": dict(engine=E3, design="6/C03",
+   technique="stateful property-based testing in the deterministic daemon simulation with a reference cache: generated response-packet histories (announcements, updates, goodbyes, cache-flush replacements, duplicates, two interfaces) and time advances around TTL boundaries; every ServiceResolved is compared with the records that may still be used at that instant",
+   text="Exploration: 3e4 (quick) / 9e5 (thorough) generated histories; each ServiceResolved (about 2.6 per case) is checked field by field (host/port from a usable SRV, every address from a usable A/AAAA of that host and tagged only with interfaces it arrived on, TXT from a usable TXT record, host and >=1 address present) against an upper-bound reference cache built from the statement (TTL, goodbye, cache-flush after 1 s).",
+   note="Trusted: simulation hooks, refdns, the reference cache (harness/src/props/browser.rs). The upper bound never shortens lifetimes for verify calls."),
+ "C05": dict(engine=E3, design="6/C05",
+   technique="stateful property-based testing in the deterministic daemon simulation with a reference cache and forced wake-ups at every model expiry: generated announcement / goodbye / silence / refresh / verify histories; ServiceRemoved is judged never-early, on-time and final",
+   text="Exploration: 2.5e4 (quick) / 7e5 (thorough) generated departure histories over horizons up to 75 min (about 1.4 judged removals per case; causes goodbye, PTR expiry, SRV expiry, last address expiry, verify deadline each with a floor). Never early: not while PTR, SRV and an address of the SRV's host all have more than a second left (before and after the datagrams of the iteration). On time: on the channel by the end of the step taken at the expiry or the next one. Final: no ServiceResolved afterwards without new records.",
+   note="Trusted: simulation hooks, refdns, the reference cache. Instances keep host and port (one SRV at a time); all instances belong to browsed types; stop_browse is not part of these histories."),
 }
 
 def check_entry(pid, c):
